@@ -2,40 +2,78 @@ import EV.Model.Wire
 import EV.Model.System
 
 /-! Driver for suite `notifcache` (model `EV.System`):
-  NEW <sessions> <hashXs> | CH x | NT a,b | SUB s x | GH s x | RD i | RF i -/
+  NEW <sessions> <hashXs> [fix] | CH x | MP x m | FL x m | ADV d | BK | RS | NT h a,b | SUB s x |
+  UNS s x | CLOSE s | HS s | GH s x | EVICT x | RD i | RF i | HD i | HF i
+The reply is the observable state, then ` # ` and the ghost fields. -/
 open EV EV.Wire EV.System
 
 namespace Drv.SystemD
 
-def showPairs (l : List (Nat × Nat)) : String :=
-  joinWith "," ((l.mergeSort (fun a b => decide (a.1 ≤ b.1))).map fun (k, v) => s!"{k}:{v}")
+structure DSt where
+  f : Flags := {}
+  st : St := {}
+
+def showStatus (v : Status) : String := s!"{v.1}.{v.2}"
+
+def showPairs (l : List (Nat × Status)) : String :=
+  joinWith "," (l.map fun (k, v) => s!"{k}:{showStatus v}")
+
+def sortPairs (l : List (Nat × Status)) : List (Nat × Status) :=
+  l.mergeSort (fun a b => decide (a.1 ≤ b.1))
 
 def showSt (st : St) : String :=
   let cache := joinWith " " ((st.cache.mergeSort (fun a b => decide (a.1 ≤ b.1))).map fun (k, v) => s!"{k}:{v}")
   let sess := (List.range st.subs.length).map fun s =>
-    "s" ++ showNats (subsOf st s) ++ " h" ++ showPairs (st.held.getD s [])
+    "s" ++ showNats (subsOf st s) ++ " m" ++ showPairs (msOf st s) ++ " h" ++ showPairs (sortPairs (st.held.getD s []))
+      ++ " H" ++ (if hdrSubOf st s then "1" else "0") ++ ":"
+      ++ (match heldHdrOf st s with | none => "-" | some (h, d) => s!"{h}.{d}")
+      ++ " A" ++ (if aliveOf st s then "1" else "0")
   let reads := joinWith " " (st.tasks.map fun t =>
     s!"{t.hx}:" ++ (match t.value with | none => "?" | some v => toString v))
-  s!"cur {showNats st.cur} | carrier {showNats (st.carrier.mergeSort (fun a b => decide (a ≤ b)))} | cache {cache} | " ++
-    joinWith " ; " sess ++ s!" | reads {reads}"
+  let hreads := joinWith " " (st.hreads.map fun r =>
+    s!"{r.h}:" ++ (match r.value with | none => "?" | some none => "E" | some (some d) => toString d))
+  s!"conf {showNats st.conf} | mem {showNats st.mem} | chain {showNats st.chain} | cache {cache} | " ++
+    joinWith " ; " sess ++ s!" | reads {reads} | hreads {hreads} | hsub {st.hsub.1}.{st.hsub.2} nh {st.notifiedHeight}" ++
+    s!" # carrier {showNats (st.carrier.mergeSort (fun a b => decide (a ≤ b)))} flipped {showNats (st.flipped.mergeSort (fun a b => decide (a ≤ b)))}" ++
+    s!" lost {showNats st.lost} suppressed {showNats st.suppressed} tipDone {if st.tipDone then 1 else 0}"
 
-def stepLine (st : St) (line : String) : St × String :=
-  let go (e : Ev) : St × String := let st' := step {} st e; (st', showSt st')
+def stepLine (ds : DSt) (line : String) : DSt × String :=
+  let go (e : Ev) : DSt × String := let st' := step ds.f ds.st e; ({ ds with st := st' }, showSt st')
+  let bad : DSt × String := (ds, "bad-op")
+  let n1 (x : String) (k : Nat → Ev) : DSt × String :=
+    match x.toNat? with | some x => go (k x) | none => bad
+  let n2 (x y : String) (k : Nat → Nat → Ev) : DSt × String :=
+    match x.toNat?, y.toNat? with | some x, some y => go (k x y) | _, _ => bad
   match words line with
   | ["NEW", ns, nhx] =>
     match ns.toNat?, nhx.toNat? with
-    | some a, some b => (init a b, showSt (init a b))
-    | _, _ => (st, "bad-op")
-  | ["CH", x] => match x.toNat? with | some x => go (.change x) | none => (st, "bad-op")
-  | ["NT"] => go (.notify [])
-  | ["NT", xs] =>
-    match natList ((xs.splitOn ",").filter (· ≠ "")) with
-    | some xs => go (.notify xs)
-    | none => (st, "bad-op")
-  | ["SUB", s, x] => match s.toNat?, x.toNat? with | some s, some x => go (.subscribe s x) | _, _ => (st, "bad-op")
-  | ["GH", s, x] => match s.toNat?, x.toNat? with | some s, some x => go (.getHistory s x) | _, _ => (st, "bad-op")
-  | ["RD", i] => match i.toNat? with | some i => go (.readDo i) | none => (st, "bad-op")
-  | ["RF", i] => match i.toNat? with | some i => go (.readFinish i) | none => (st, "bad-op")
-  | _ => (st, "bad-op")
+    | some a, some b => ({ f := {}, st := init a b }, showSt (init a b))
+    | _, _ => bad
+  | ["NEW", ns, nhx, "fix"] =>
+    match ns.toNat?, nhx.toNat? with
+    | some a, some b => ({ f := { cmpLive := true }, st := init a b }, showSt (init a b))
+    | _, _ => bad
+  | ["CH", x] => n1 x .change
+  | ["MP", x, m] => n2 x m .mpChange
+  | ["FL", x, m] => n2 x m .flip
+  | ["ADV", d] => n1 d .advance
+  | ["BK"] => go .backup
+  | ["RS"] => go .reorgSignal
+  | ["NT", h] => n1 h (fun h => .notify h [])
+  | ["NT", h, xs] =>
+    match h.toNat?, natList ((xs.splitOn ",").filter (· ≠ "")) with
+    | some h, some xs => go (.notify h xs)
+    | _, _ => bad
+  | ["SUB", s, x] => n2 s x .subscribe
+  | ["UNS", s, x] => n2 s x .unsubscribe
+  | ["CLOSE", s] => n1 s .closeSession
+  | ["HS", s] => n1 s .subscribeHeaders
+  | ["GH", s, x] => n2 s x .getHistory
+  | ["EVICT", x] => n1 x .evict
+  | ["RD", i] => n1 i .readDo
+  | ["RF", i] => n1 i .readFinish
+  | ["HD", i] => n1 i .hdrDo
+  | ["HF", i] => n1 i .hdrFinish
+  | _ => bad
 
 end Drv.SystemD
